@@ -52,6 +52,11 @@ package server
 //@ func (*monitor).filter
 //@ requires m != nil && update != nil
 //@ modifies nothing
+//@ at call server.filterColumns requires arg1 == cols && ("_uuid" in cols) && (forall c: string :: (c in cols) == (c == "_uuid" || (exists i: int :: 0 <= i && i < len(columns) && columns[i] == c)))
+//@ loop 2 invariant cols != nil && ("_uuid" in cols) && (forall c: string :: (c in cols) == (c == "_uuid" || (exists i: int :: 0 <= i && i <= rangeindex && columns[i] == c)))
+//@ func (*monitor).filter$1
+//@ requires tu != nil
+//@ at update tu requires arg0 == uuid && arg1 == ru && ((ru.New != nil && ru.Old == nil && SelInsert(sel)) || (ru.New != nil && ru.Old != nil && SelModify(sel)) || (ru.New == nil && ru.Old != nil && SelDelete(sel)))
 //@ func (*monitor).filter2
 //@ requires m != nil && update != nil
 //@ modifies nothing
